@@ -14,7 +14,7 @@ CLAIMS = {
  "C03": dict(
    text="For every line body of <= L bytes (L=5 quick, 9 thorough), every line number, LISTO 0..7 and every dialect, the solver shows the real "
         "decode_line emits exactly the events (line number field, LISTO space, indentation, keyword/literal/target, newline) the documents define; "
-        "for every file of <= N bytes (16/28) the real framing functions hand decode_line exactly the documented lines; the real build_mapping "
+        "for every file of <= N bytes (16 quick; thorough 28 big-endian, 20 little-endian) the real framing functions hand decode_line exactly the documented lines; the real build_mapping "
         "tables equal the documented tables; main dispatches framing by dialect and '-' to standard input. Bounded, not a proof.",
    note="oracle harness/c/ref.h + spec/tokens.json transcribed from doc/bbcbasic.5; stdio model env.h; lines longer than L / files longer than N "
         "outside the verdict (decode_line's per-byte loop carries only in_string/len/p); CBMC + CaDiCaL trusted",
